@@ -244,11 +244,15 @@ func (c c27RRCfg) String() string {
 	return fmt.Sprintf("use=%s cliLegacy=%s accept=%s srvLegacy=%s setSend=%s shape=%s", c.Use, c.CliLegacy, c.Accept, c.SrvLegacy, c.SetSend, c.Shape)
 }
 
-func c27RRCases() []c27RRCfg {
+func c27RRCases(thorough bool) []c27RRCfg {
 	var out []c27RRCfg
+	accepts := []string{"-", "gzip", "c"}
+	if thorough {
+		accepts = append(accepts, "gzip,c")
+	}
 	for _, use := range []string{"-", "identity", "gzip", "c", "zz"} {
 		for _, cl := range []string{"-", "gzip", "l"} {
-			for _, acc := range []string{"-", "gzip", "c"} {
+			for _, acc := range accepts {
 				for _, sl := range []string{"-", "gzip", "l"} {
 					for _, ss := range []string{"-", "identity", "gzip", "c", "zz"} {
 						for _, sh := range []string{"unary-big", "unary-empty", "bidi"} {
@@ -455,7 +459,7 @@ func c27CallOpts(use, accept string) []grpc.CallOption {
 		copts = append(copts, grpc.UseCompressor(use))
 	}
 	if accept != "-" {
-		copts = append(copts, experimental.AcceptCompressors(accept))
+		copts = append(copts, experimental.AcceptCompressors(strings.Split(accept, ",")...))
 	}
 	return copts
 }
@@ -464,7 +468,7 @@ func c27Menu(accept string) []string {
 	if accept == "-" {
 		return nil
 	}
-	return []string{accept}
+	return strings.Split(accept, ",")
 }
 
 type c27Report struct {
@@ -586,7 +590,7 @@ func c27RunRR(t *testing.T, r *vk.Run, cfg c27RRCfg) (rep c27Report) {
 			}
 		case rv && rs && pv && ps && pp:
 			if res.Code != codes.OK {
-				f.add("supported-encodings-rpc-failed", fmt.Sprintf("%s/%s/accept=%s/reqenc=%s/respenc=%s", cliProj, srvProj, cfg.Accept, reqEnc, respEnc),
+				f.add("supported-encodings-rpc-failed", fmt.Sprintf("reqenc=%s/srvLegacy=%s/respenc=%s/cliLegacy=%s/accept=%s", reqEnc, cfg.SrvLegacy, respEnc, cfg.CliLegacy, cfg.Accept),
 					"request grpc-encoding %q and response grpc-encoding %q are supported by their receivers, all wire messages are valid, yet the RPC failed: %v", reqEnc, respEnc, res.Err)
 			} else {
 				if !c27SameMsgs(h.Recv, req) {
@@ -987,8 +991,8 @@ func c27Record(r *vk.Run, sub string, cfgKey string, rep c27Report, rp c27Replay
 func TestVerif_C27_Compression(t *testing.T) {
 	r := vk.Start(t, "c27_compression", "exploration", c27P)
 	defer r.Finish()
-	rr, rc, rs := c27RRCases(), c27RCCases(), c27RSCases()
-	r.Rule(c27P, fmt.Sprintf("full cross products: rr (real client x real server) UseCompressor{-,identity,gzip,c,zz} x legacy WithCompressor/WithDecompressor{-,gzip,l} x AcceptCompressors{-,gzip,c} x legacy RPCCompressor/RPCDecompressor{-,gzip,l} x SetSendCompressor{-,identity,gzip,c,zz} x shape{unary 55B, unary empty, bidi 3+3 msgs} = %d; rc (raw client -> real server) grpc-encoding{-,identity,gzip,c,unknown} x flag{0,1} x payload{valid,invalid} x grpc-accept-encoding{-,gzip,c,'gzip,c',unknown} x RPCCompressor{-,gzip} x SetSendCompressor{-,gzip,c} = %d; rs (real client -> raw server) response grpc-encoding{-,identity,gzip,c,l,unknown} x flag x payload validity x legacy{-,gzip,l} x AcceptCompressors{-,gzip} x UseCompressor{-,gzip,c} = %d. Non-trivial: at least one direction carries a non-identity grpc-encoding or a flagged message (the flag/encoding clauses are then not vacuous)", len(rr), len(rc), len(rs)))
+	rr, rc, rs := c27RRCases(r.Thorough()), c27RCCases(), c27RSCases()
+	r.Rule(c27P, fmt.Sprintf("full cross products: rr (real client x real server) UseCompressor{-,identity,gzip,c,zz} x legacy WithCompressor/WithDecompressor{-,gzip,l} x AcceptCompressors{-,gzip,c; thorough tier also 'gzip,c'} x legacy RPCCompressor/RPCDecompressor{-,gzip,l} x SetSendCompressor{-,identity,gzip,c,zz} x shape{unary 55B, unary empty, bidi 3+3 msgs} = %d; rc (raw client -> real server) grpc-encoding{-,identity,gzip,c,unknown} x flag{0,1} x payload{valid,invalid} x grpc-accept-encoding{-,gzip,c,'gzip,c',unknown} x RPCCompressor{-,gzip} x SetSendCompressor{-,gzip,c} = %d; rs (real client -> raw server) response grpc-encoding{-,identity,gzip,c,l,unknown} x flag x payload validity x legacy{-,gzip,l} x AcceptCompressors{-,gzip} x UseCompressor{-,gzip,c} = %d. Non-trivial: at least one direction carries a non-identity grpc-encoding or a flagged message (the flag/encoding clauses are then not vacuous)", len(rr), len(rc), len(rs)))
 	r.Assume(c27P, "registered compressors in the test binary: gzip (encoding/gzip) and custom 'c'; 'l' exists only as legacy grpc.Compressor/Decompressor; 'zz'/'unknown' exist nowhere")
 	r.Assume(c27P, "reading of the statement: an UNFLAGGED message under an encoding the receiver does not support may either fail with the required code or be delivered verbatim (it is not 'undecoded data'); W2 is judged only when the server actually sent a flagged message; SetSendCompressor is called before the first response message")
 	if !c27StrictEmpty {
